@@ -436,8 +436,19 @@ def gen_problem(ctx, tiny=False, layout=None):
     maxit = rng.randint(3, 12) if ctx.quick else rng.randint(3, 40)
     if not xs_valid:
         maxit = min(maxit, 4)       # sub-problems of an objective that ignores some variables are slow to solve (Newton caps)
+    # two variable signals initialised with the SAME array object (each must still receive its own slice of every new design)
+    share = []
+    cum_ = np.concatenate([[0], np.cumsum(sizes)]).astype(int)
+    pairs = [(i, j) for i in range(nsig) for j in range(i + 1, nsig) if kinds[i] == kinds[j] == "arr" and sizes[i] == sizes[j]]
+    if pairs and rng.random() < 0.35:
+        i, j = rng.choice(pairs)
+        seg = np.array(x0[cum_[i]:cum_[i + 1]], dtype=float)
+        if np.all(seg >= xmin[cum_[j]:cum_[j + 1]]) and np.all(seg <= xmax[cum_[j]:cum_[j + 1]]):
+            x0 = np.array(x0, dtype=float)
+            x0[cum_[j]:cum_[j + 1]] = seg
+            share.append([i, j])
     return {"sizes": sizes, "kinds": kinds, "resp": resp, "x0": x0, "xs": xs, "xmin": xmin_s, "xmax": xmax_s, "move": move_s,
-            "opts": opts, "a": acoef, "c": ccoef, "tolx": rng.choice([1e-4, 1e-4, 0.0, 1e-6]),
+            "share": share, "opts": opts, "a": acoef, "c": ccoef, "tolx": rng.choice([1e-4, 1e-4, 0.0, 1e-6]),
             "tolf": rng.choice([0.0, 0.0, 0.0, 1e-6]), "maxit": maxit, "entry": rng.choice(["MMA", "minimize_mma"]),
             "default_asy": default_asy, "kind": kind, "mu": mu, "xs_valid": xs_valid, "chains": rng.random() < 0.5,
             "masked": masked}
@@ -459,6 +470,8 @@ def run_impl(p):
     Resp = resp_module()
     with fast_init_loc():
         sigs = [pm.Signal(f"x{i}", st) for i, st in enumerate(make_states(p))]
+        for i_, j_ in p.get("share", []):
+            sigs[j_].state = sigs[i_].state
         outs = [pm.Signal(f"g{i}") for i in range(len(p["resp"]))]
         cum = np.concatenate([[0], np.cumsum(p["sizes"])]).astype(int)
         mods = []
@@ -741,7 +754,8 @@ def describe(p):
             "maxit": p["maxit"], "entry": p["entry"], "kind": p["kind"],
             "resp": [{"k": float(r["k"]), "l": fl(r["l"]), "B": fl(r["B"]), "s": float(r["s"]),
                       "H": None if r["H"] is None else [fl(row) for row in r["H"]], "mask": r.get("mask")} for r in p["resp"]],
-            "xs": fl(p["xs"]), "xs_valid": p.get("xs_valid", True), "chains": p.get("chains", False)}
+            "xs": fl(p["xs"]), "xs_valid": p.get("xs_valid", True), "chains": p.get("chains", False),
+            "share": p.get("share", [])}
 
 
 def undescribe(d):
